@@ -89,6 +89,19 @@ def run(run, replay=None):
                 if e['status'] == 'ok':
                     h.ser(len(h.trees))
                     h.repr(len(h.trees))
+        if rng.random() < 0.25:
+            # the SAME reader is handed a stream without any section (empty, or blank lines only) after other
+            # parses: it yields an empty tree of its own, which is then filled
+            if len(h.trees) < 3 or rng.random() < 0.5:
+                data, _info = fgen.build_file(rng.choice(paths), rng)
+                if rdriver.read_bytes(data, abstract=False)[1] == 'done' and rdriver.dom_load(data)['end'] == 'ok':
+                    h.parse(data)
+            e = h.parse(rng.choice([b'', b'\n', b'\n\n  \n', b'\r\n']))
+            if e['status'] == 'ok':
+                t = len(h.trees)
+                h.set(t, 0, 0, 'meta', {'filled': 'later'})
+                h.set(t, 0, 0, 'preamble', 'text of the once empty tree')
+                h.addc(t)
         for _ in range(rng.randint(6, 14) if quick else rng.randint(8, 24)):
             random_step(h, rng)
         traces.append(h.trace(n, CHK))
